@@ -61,8 +61,12 @@ def cls_of(stack):
 GAP = 2  # seconds between warm-up and read when warm == "gap": beyond HashClient's retry_timeout (1 s)
 
 
+MENU = {k: list(v) for k, v in simnet.MENU_CONN.items()}
+MENU["reply"] = MENU["reply"] + ["odd_cas"]  # an intact item whose cas field is not a number
+
+
 def run_case(ch, stack, serde, warm, shape, preload=True, probe=True):
-    net = stacks.new_net(ch, menu=simnet.MENU_CONN)
+    net = stacks.new_net(ch, menu=MENU)
     if preload:
         ops.preload(net)
     cfg = dict(ignore_exc=True, default_noreply=True, connect_timeout=3, timeout=7)
@@ -217,6 +221,8 @@ def _worker(job, chk):
         if got[0] != "ret":
             bad = (f"raises|{cname}|{shape.label}|{type(got[1]).__name__}",
                    f"{cname}(ignore_exc=True).{shape.label} raised {got[1]!r} under fault plan {ch.plan()}")
+        elif any(sf[0] == ncall for sf in net.soft):
+            pass  # an odd cas token: a hit with that token and a miss are both fine, raising is not
         else:
             exp = expected(stack, shape, miss, hit, owner, net, ncall, warm)
             if not same(got, exp):
